@@ -57,7 +57,6 @@ theorem inv_afterSetUp_recompute (sameProj : Bool) (n : Nat) (hn : 0 < n) (g g2 
     cases hst : step sameProj s Req.sensitivity with
     | none => simp [hst] at this
     | some s' => simpa [hst] using this.2
-  generalize (step sameProj (St.afterSetUpBefore g g2) Req.sensitivity).getD (St.afterSetUpBefore g g2) = s0 at *
   have : ∀ (k : Nat) (s : St), invB s = true →
       invB ((List.replicate k Req.sensitivity).foldl (fun s r => (step sameProj s r).getD s) s) = true := by
     intro k
